@@ -11,13 +11,17 @@ META = {
                    "lammpstrj, dtr; nm: xtc, trr, h5, gro), that time (ps) and angles (degrees) pass unchanged into the right argument, that box vectors have the "
                    "cell's lengths and angles in the standard orientation, and that numbered restart files get frame k's coordinates, time and cell. Load side: the "
                    "real read_as_traj of each pure-Python format class runs on symbolic arrays delivered by a stub read(); the values reaching the Trajectory "
-                   "constructor / setters must be the file's numbers converted to nm with times / angles unchanged. Counterexamples are replayed through real files "
+                   "constructor / setters must be the file's numbers converted to nm with times / angles unchanged. Text layer (harness/c01_text.py): the real write() "
+                   "of gro, mdcrd, xyz, lammpstrj and rst7 runs on symbolic numbers; formatting a symbolic value yields a TOKEN standing for its z3 term, so all arithmetic before "
+                   "formatting (LAMMPS box bounds and tilt factors, minima) stays symbolic and the text records which term landed in which field; an independent reader written "
+                   "from each format's specification parses the text and z3 decides that it extracts the trajectory's numbers, on every path through the writer (branches on "
+                   "symbolic values are explored); mdtraj's own reader must extract the same tokens. Counterexamples are replayed through real files "
                    "(save with the public API, read back with the format's low-level reader in native units, and vice versa).",
     "trusted_base": ["z3", "vtlib/symnum.py facade", "the independent native-unit table in harness/c01.py", "compiled writers' distance_unit attribute read from the installed extension modules"],
     "assumptions": ["2 frames x 2 atoms (restart: 1, 3 and 11 frames); coordinates/times in [-1000,1000], cell lengths in [0.5,100] nm; cell angles concrete (90/90/90 and 80/100/70)",
                     "real arithmetic: float32 storage precision of the formats is not modelled"],
     "out": ["binary codecs (XTC compression, TRR, DCD, DTR: Cython + C behind FFI) and HDF5/NetCDF storage layers: bytes on disk are not modelled",
-            "fixed-width text encoders/decoders (mdcrd, pdb, gro, xyz, lammpstrj, rst7 number formatting and column layout) -- value fidelity of the text layer is not decided here",
+            "number formatting itself (rounding to the printed precision, field overflow at the format's limit): tokens are exact in every field", "PDB text layer (ATOM/CRYST1 records), .gz variants",
             "read_as_traj of the compiled classes (xtc, trr, dcd, dtr)", "PDB keeps a single CRYST1 record: per-frame varying cells are a format limitation",
             "save options (gro precision, pdb bfactors/ter/header)"],
 }
@@ -47,12 +51,27 @@ def obligations():
         for cell in (True, False):
             o.append(Obl(f"C01.load.{f}.{'cell' if cell else 'nocell'}", "py", H, "load_units", [f"{f} read_as_traj", "mdtraj.utils.unit.in_units_of"], "2 frames x 2 atoms (restart: 1 frame), symbolic file contents",
                          "values reaching the Trajectory are the file's numbers in nm / ps / degrees", 120, params={"fmt": f, "cell": cell}))
+    T = "harness.c01_text"
+    enc = {"gro": ["mdtraj.formats.gro.GroTrajectoryFile.write", "_write_frame", "read", "_read_frame"], "mdcrd": ["mdtraj.formats.mdcrd.MDCRDTrajectoryFile.write", "read", "_read"],
+           "xyz": ["mdtraj.formats.xyzfile.XYZTrajectoryFile.write", "read"], "lammpstrj": ["mdtraj.formats.lammpstrj.LAMMPSTrajectoryFile.write", "write_box", "read", "parse_box"],
+           "rst7": ["mdtraj.formats.amberrst.AmberRestartFile.write", "read"]}
+    for f in ("gro", "mdcrd", "xyz", "lammpstrj", "rst7"):
+        for cell in ("none", "ortho", "tri"):
+            if (f, cell) in (("mdcrd", "tri"), ("lammpstrj", "none"), ("xyz", "ortho"), ("xyz", "tri")):
+                continue
+            o.append(Obl(f"C01.text.{f}.{cell}", "py", T, "writer", enc[f], "2 frames (rst7: 1) x 3 atoms; symbolic coordinates, times, cell lengths; every path through the writer",
+                         "an independent reader of the format (written from its specification) and mdtraj's own reader both extract exactly the trajectory's numbers from the written text", 300,
+                         params={"fmt": f, "cell": cell, "n_atoms": 3}))
+    o.append(Obl("C01.text.mdcrd.7atoms", "py", T, "writer", enc["mdcrd"], "7 atoms: 21 values = 2 full 10F8.3 records + 1", "record wrapping at 10 values per line and a fresh record per frame", 300, params={"fmt": "mdcrd", "cell": "ortho", "n_atoms": 7}))
+    o.append(Obl("C01.text.rst7.odd_atoms", "py", T, "writer", enc["rst7"], "3 and 4 atoms: 6F12.7 records with an odd / even number of atoms", "line breaks after every second atom; box line on its own record", 300, params={"fmt": "rst7", "cell": "ortho", "n_atoms": 4}))
+    o.append(Obl("C01.text.mdcrd.box_record_layout", "py", T, "writer", enc["mdcrd"], "fixed-column (FORTRAN 3F8.3) reading of the box record", "the box record occupies columns 1-24 as the AMBER format page specifies", 300,
+                 params={"fmt": "mdcrd", "cell": "ortho", "n_atoms": 3, "strict_box": True}))
     return o
 
 
 MANIFEST_INFO = {
     "engine": "symnum",
     "technique": "real save_<fmt> / read_as_traj Python code executed on z3 reals (symbolic coordinates, times, cell lengths) with the file class replaced by a recorder; z3 decides equality with an independent native-unit table; counterexamples replayed through real files",
-    "text": "Units and field plumbing between Trajectory and every writable format's writer (13 formats) and every pure-Python reader (8): native-unit factor, time/angle pass-through, box-vector geometry, per-file frame indexing of the multi-file restart writers, cell-less trajectories.",
-    "note": "PARTIAL: the bytes themselves (binary codecs, fixed-width text formatting and parsing) are not modelled; precision claims are not decided. Real arithmetic.",
+    "text": "Units and field plumbing between Trajectory and every writable format's writer (13 formats) and every pure-Python reader (8): native-unit factor, time/angle pass-through, box-vector geometry, per-file frame indexing of the multi-file restart writers, cell-less trajectories. Text formats (gro, mdcrd, xyz, lammpstrj, rst7): the written text, read by an independent specification-based reader and by mdtraj's reader, yields exactly the symbolic numbers (layout, field order, record wrapping, LAMMPS triclinic box bounds).",
+    "note": "PARTIAL: binary codecs (XTC/TRR/DCD/DTR, HDF5/NetCDF storage) and the PDB text layer are not modelled; printed precision / field overflow are not decided. Real arithmetic.",
 }
